@@ -957,11 +957,12 @@ impl Parsed {
 
         // checks if the given `DateTime` has a consistent `Offset` with given `self.offset`.
         let check_offset = |dt: &DateTime<Tz>| {
-            if let Some(offset) = self.offset {
-                dt.offset().fix().local_minus_utc() == offset
-            } else {
-                true
+            let dt_offset = dt.offset().fix().local_minus_utc();
+            // With a timestamp the instant is known: only the offset in effect then is consistent.
+            if self.timestamp.is_some() && dt_offset != guessed_offset {
+                return false;
             }
+            if let Some(offset) = self.offset { dt_offset == offset } else { true }
         };
 
         // `guessed_offset` should be correct when `self.timestamp` is given.
